@@ -177,9 +177,9 @@ def in_domain(cands, tag):
 
 
 # --------------------------------------------------------------------------- EnumDiscriminants (C09)
-DGEN = {"none": ("", "", ""), "ty": ("<T: Default + Clone + PartialEq + core::fmt::Debug>", "<u16>", ""),
-        "lt": ("<'a>", "<'static>", ""), "ltty": ("<'a, T>", "<'static, u16>", " where T: Default + Clone + PartialEq + core::fmt::Debug + 'a"),
-        "tywhere": ("<T>", "<u16>", " where T: Default + Clone + PartialEq + core::fmt::Debug")}
+DGEN = {"none": ("", "", ""), "ty": ("<T: Default + Clone + PartialEq + ::core::fmt::Debug>", "<u16>", ""),
+        "lt": ("<'a>", "<'static>", ""), "ltty": ("<'a, T>", "<'static, u16>", " where T: Default + Clone + PartialEq + ::core::fmt::Debug + 'a"),
+        "tywhere": ("<T>", "<u16>", " where T: Default + Clone + PartialEq + ::core::fmt::Debug")}
 
 
 def disc_def(rng, did):
